@@ -579,7 +579,8 @@ def check_column_indices(ctx: Ctx, Time):
     probes = [("g[1:3, 0]", lambda: g[1:3, 0]), ("g[:, 1]", lambda: g[:, 1]), ("g[..., 0]", lambda: g[..., 0]),
               ("g[1:3, 0:2]", lambda: g[1:3, 0:2]), ("g[[0, 2], [0, 1]]", lambda: g[[0, 2], [0, 1]]), ("g[2, 0:2]", lambda: g[2, 0:2]),
               ("g[2][0:1]", lambda: g[2][0:1]), ("g[2][[0, 1]]", lambda: g[2][[0, 1]]), ("g[1:3, :]", lambda: g[1:3, :]),
-              ("g[2, 0]", lambda: g[2, 0]), ("g[(2,)]", lambda: g[(2,)])]
+              ("g[2, 0]", lambda: g[2, 0]), ("g[(2,)]", lambda: g[(2,)]), ("g[2][0]", lambda: g[2][0]), ("g[0:3, 0]", lambda: g[0:3, 0]),
+              ("g[2, 0:3]", lambda: g[2, 0:3])]
     for name, f in probes:
         case = {"kind": "gps_ws", "index": name}
         try:
@@ -602,6 +603,37 @@ def check_column_indices(ctx: Ctx, Time):
             ctx.violate("len:column-index", f"{name} is a time array of shape {np.shape(r)} with {n} epochs (jd1) and len() = {ln}", case)
         else:
             ctx.count("column-index:time-array-with-right-length")
+
+
+def check_split_pairs(ctx: Ctx, Time, rng):
+    """the same epochs with another split of the Julian date (mjd/jd split at noon, datetime at midnight; from_jds keeps what it
+    is given): whenever two such arrays - or what the same operations derive from them - compare equal, they must hash alike"""
+    import copy as _copy
+
+    n = rng.randint(1, 6)
+    mjd = np.array([58000.0 + 2 * k + rng.choice([0.25, 0.75, 0.5, 0.125]) for k in range(n)])
+    for scale in ("utc", "gps", "tai"):
+        a = Time(mjd, fmt="mjd", scale=scale)
+        b = Time(a.datetime, fmt="datetime", scale=scale)
+        c = type(a).from_jds(np.asarray(a.jd1) - 1.0, np.asarray(a.jd2) + 1.0, "jd")
+        i = rng.randrange(n)
+        m = np.array([rng.random() < 0.6 for _ in range(n)])
+        derive = [("itself", lambda x: x), ("x[i]", lambda x: x[i]), ("x[i:]", lambda x: x[i:]), ("x[::-1]", lambda x: x[::-1]),
+                  ("x[mask]", lambda x: x[m]), ("x[[i, 0]]", lambda x: x[[i, 0]]), ("subset", lambda x: x.subset([i], {})),
+                  ("copy", lambda x: _copy.copy(x)), ("x.tai", lambda x: x.tai), ("x.tt", lambda x: x.tt)]
+        for name, f in derive:
+            xs = [f(y) for y in (a, b, c)]
+            for u, v, which in ((xs[0], xs[1], "mjd/datetime"), (xs[0], xs[2], "mjd/from_jds")):
+                case = {"kind": "split", "scale": scale, "mjd": [float(q) for q in mjd], "derived": name, "pair": which}
+                differ = not (np.array_equal(np.asarray(u.jd1), np.asarray(v.jd1)) and np.array_equal(np.asarray(u.jd2), np.asarray(v.jd2)))
+                try:
+                    eq = bool(u == v)
+                except Exception:  # noqa
+                    continue
+                ctx.count(f"split-pair:{'other-split' if differ else 'same-split'}:eq={int(eq)}")
+                if eq and hash(u) != hash(v):
+                    ctx.violate("hash-eq:other-split", f"{name} of two {scale} arrays holding the same epochs with another jd1/jd2 split "
+                                f"({which}) compare equal and hash differently", case)
 
 
 def check_immutable(ctx: Ctx, x, case):
@@ -749,7 +781,7 @@ def run_sequence(ctx: Ctx, Time, kind, sizes, ops_symbolic, rng, exhaustive):
                 ctx.violate(f"index-semantics:{op[0]}", f"{op_token(op)} selected {r[1][1]} from {parent[1]}", case)
         if op[0] in ("getint", "getell") and r[0] == "A":
             parent = w.obs(w.arrs[op[1]])
-            if [parent[1][op[2]]] != r[1][1]:
+            if not (-len(parent[1]) <= op[2] < len(parent[1])) or [parent[1][op[2]]] != r[1][1]:
                 ctx.violate("index-semantics:" + op[0], f"{op_token(op)} gave {r[1][1]} from {parent[1]}", case)
         if op[0] != "set":
             n0 = len(w.arrs)
@@ -883,6 +915,8 @@ def _run_all(ctx: Ctx, Time, rng):
         seq = [(lambda w, _r=rng: random_op(_r, w)) for _ in range(length)]
         run_sequence(ctx, Time, kind, sizes, seq, rng, False)
     check_column_indices(ctx, Time)
+    for _ in range(ctx.budget(20, 300)):
+        check_split_pairs(ctx, Time, rng)
     # derivation paths to the same epochs
     for _ in range(ctx.budget(120, 3000)):
         kind = rng.choice(["mjd", "gps_ws", "leap"])
